@@ -1,6 +1,7 @@
 package util
 
 import (
+	"encoding/binary"
 	"unsafe"
 
 	"github.com/relex/gotils/logger"
@@ -34,6 +35,16 @@ func DeepCopyStrings(strList []string) []string {
 		destList[i] = DeepCopyString(str)
 	}
 	return destList
+}
+
+// AppendMergedKey appends the given keys to buf in a form that is unique for every key tuple: each key is preceded by
+// its length, so that ("ab", "c") and ("a", "bc") are merged differently. The result is meant as a map key only.
+func AppendMergedKey(buf []byte, keys []string) []byte {
+	for _, key := range keys {
+		buf = binary.LittleEndian.AppendUint64(buf, uint64(len(key)))
+		buf = append(buf, key...)
+	}
+	return buf
 }
 
 // MutableString is a string backed by raw []byte, instead of in the immutable memory area like normal Go strings.
